@@ -547,13 +547,29 @@ def evaluate(run, want=None):
         return I
 
     # ---- final model
-    if not run.final:
-        I.c("final_model_not_captured")
+    # The model the last round fitted and scored against, taken from the phase trace (NOT from whatever object is handed to
+    # the metric functions): mean and covariance from the last statistics phase, MRFs from the model the last labelling scored.
+    st_last = [p for p in phases if p["phase"] == "stats"]
+    if not st_last or not label_events:
+        I.c("final_model_not_observed")
         return I
-    fsnap = run.final[0][1]
-    mus = [a_["stacked_data_mean"] for a_ in fsnap["arrays"]]
-    ths = [np.atleast_2d(a_["train_inverse"]) for a_ in fsnap["arrays"]]
-    covs = [np.atleast_2d(a_["empirical_covariance"]) for a_ in fsnap["arrays"]]
+    fit_arrays = st_last[-1]["out"]["arrays"]
+    scored = label_events[-1]["inp"]["arrays"]
+    if any(a_["stacked_data_mean"] is None or a_["empirical_covariance"] is None for a_ in fit_arrays) or \
+            any(a_["train_inverse"] is None for a_ in scored):
+        I.c("final_model_not_observed")
+        return I
+    mus = [a_["stacked_data_mean"] for a_ in fit_arrays]
+    covs = [np.atleast_2d(a_["empirical_covariance"]) for a_ in fit_arrays]
+    ths = [np.atleast_2d(a_["train_inverse"]) for a_ in scored]
+    if run.final:
+        fsnap = run.final[0][1]
+        same = all(instrument._arr_equal(a_["stacked_data_mean"], m_) and instrument._arr_equal(np.atleast_2d(a_["empirical_covariance"]), c_)
+                   and instrument._arr_equal(np.atleast_2d(a_["train_inverse"]), t_)
+                   for a_, m_, c_, t_ in zip(fsnap["arrays"], mus, covs, ths)
+                   if a_["stacked_data_mean"] is not None and a_["empirical_covariance"] is not None and a_["train_inverse"] is not None)
+        if not same:
+            I.c("metrics_called_on_a_model_other_than_the_last_round")
     pd_ok = all(np.all(np.isfinite(th)) and linalg.is_pd(th) for th in ths)
 
     # ---- C03: every float of the result finite
@@ -623,7 +639,7 @@ def evaluate(run, want=None):
     sw_within = math.fsum(float(within[i]) for i in range(Tp - 1) if labs[i] != labs[i + 1])
     cross = math.fsum(float(beta_vec[i]) for i in boundary_idx if labs[i] != labs[i + 1])
     cost_tol = 1e-9 * (float(np.sum(np.abs(ll))) + float(np.sum(np.abs(beta_vec)))) + 2 * float(np.sum(bnd))
-    expect = -math.fsum(ll) + sw_within
+    expect = -float(res.overall_log_likelihood) + sw_within      # the property relates the result's own fields
     got = float(res.label_assignment_cost)
     beta_seen = None
     if run.label_steps:
